@@ -42,6 +42,9 @@ class HardTimeout(BaseException):
     pass
 
 
+ESCAPED = object()
+
+
 def _alarm(signum, frame):
     raise HardTimeout()
 
@@ -170,11 +173,7 @@ def make_callee(inv, idx):
         info = {'token': token, 'kw': kw, 'pid': pid, 'ticks': seen, 'pad': pad, 'extra': extra}
         if inv['out'] == 'raise':
             cls = exc_class(inv['exc'])
-            if cls is SystemExit:
-                sys.exit(2)
-            if cls in (KeyboardInterrupt, GeneratorExit, BaseException):
-                raise cls()
-            raise cls(info)
+            raise cls(info)       # SystemExit(info): what sys.exit(info) raises
         if inv['reterr']:
             return M.SubprocessError(ex=SC.Inner({'token': token, 'pid': pid, 'pad': pad, 'extra': extra}))
         return info
@@ -291,6 +290,8 @@ async def run_one(idx, inv):
                 wraps_ok = deco.__name__ == callee.__name__ and asyncio.iscoroutinefunction(deco)
                 return await deco(token, kw=inv['kw'])
             return await M.calculate_in_subprocess(callee, token, kw=inv['kw'])
+        except (KeyboardInterrupt, SystemExit, GeneratorExit) as ex:
+            return ESCAPED, ex     # must not reach the event loop of this worker: it would stop it
         finally:
             observe(idx)           # same synchronous segment in which the outcome leaves the implementation
 
@@ -312,7 +313,11 @@ async def run_one(idx, inv):
     else:
         try:
             r = task.result()
-            out.update(classify(inv, token, 'ret', r))
+            if isinstance(r, tuple) and len(r) == 2 and r[0] is ESCAPED:
+                out.update(classify(inv, token, 'exc', r[1]))
+                out['exc_name'] = type(r[1]).__name__
+            else:
+                out.update(classify(inv, token, 'ret', r))
             r = None
         except HardTimeout:
             out['hang'] = 'sync'
@@ -401,8 +406,8 @@ def main():
             continue
         try:
             r = run_batch(c)
-            if any(i.get('hang') for i in r['invs']):
-                after_hang = True
+            if any(i.get('hang') or i.get('ticks_seen') is False for i in r['invs']):
+                after_hang = True      # a hang / a blocked loop has been established; do not pay the watchdog again
         except BaseException as ex:   # harness-level failure
             r = {'error': repr(ex)}
         print(json.dumps(r), flush=True)
